@@ -1,5 +1,5 @@
 #!/usr/bin/env python3
-"""tools/consts_manager_selftest.py: the failure-handling extractor of consts_manager.py on textual variants of
+"""tools/consts_manager_selftest.py: the failure-handling extractor and the copy-flag extractor of consts_manager.py on textual variants of
 <repo>/demeter/core/backtest.py (nothing is written, nothing is imported from the repo).  Each variant is a small edit of the current
 source — the code before the repair, handlers that re-raise / break / catch too little, the loop body or the whole branch moved into
 a helper, `.get()` instead of `.wait()` on either pooled branch — with the flags (in-process loop catches, forked pool waits,
@@ -82,5 +82,177 @@ for k, v in cases.items():
     ok = got == EXPECT[k]
     bad += not ok
     print(f"{'ok ' if ok else 'BAD'} {k:26s} {got}" + ("" if ok else f"   expected {EXPECT[k]}"))
-print(f"consts_manager_selftest: {len(cases) - bad}/{len(cases)} as expected")
-sys.exit(1 if bad else 0)
+
+# ---- the copy flags (review finding F-7): managerMarketsCopy (digit), then managerSeqIfOneStrategyOrOneThread, managerDataView,
+#      managerCellsCopied (T/F), or ShapeError.  A variant that copies less than the current source (a narrowed / disabled guard, a loop
+#      over one column, a memoised helper, a second write to the market's frame, another object attached than the copy, an in-process
+#      branch that runs nothing) must never answer what the current source answers ("2TTT").
+from gen_common import parse, const_int, rat_of
+
+def cflags(src):
+    out = {}
+    tree = ast.parse(src)
+    try:
+        cm._copy_flags(lambda n, t, v, c="": out.__setitem__(n, v), lambda rel: tree if rel == "demeter/core/backtest.py" else parse(rel),
+                       find_func, const_int, rat_of, ShapeError, None)
+    except ShapeError as e:
+        return "ShapeError"
+    return out["managerMarketsCopy"] + "".join("T" if out[k] == "true" else "F" for k in ("managerSeqIfOneStrategyOrOneThread", "managerDataView", "managerCellsCopied"))
+
+GUARD = "if cells.dtype == object and cells.map(lambda cell: isinstance(cell, (list, dict, set))).any():"
+RANGE = "for position in range(frame.shape[1]):"
+OWN = "def _own_frame(shared: pd.DataFrame) -> pd.DataFrame:\n"
+ASSIGN = "        market.data = _own_frame(data.data[market.market_info])\n"
+ADD = "        actuator.broker.add_market(market)\n"
+MLOOP = "    for market in copy.deepcopy(config.markets):\n"
+SEQ = "            for strategy in self.strategies:\n                # A backtest that fails must not keep the strategies after it from running: report the failure the way\n                # the pooled path does (its error callback) and go on with the next strategy.\n" + LOOP
+for text in (GUARD, RANGE, OWN, ASSIGN, ADD, MLOOP, SEQ):
+    if SRC.count(text) != 1:
+        print("consts_manager_selftest: the text of backtest.py is not the one these variants are edits of (not a failure of the extractor): " + text[:60])
+        sys.exit(2)
+def sub(old, new, src=SRC): return src.replace(old, new)
+IN_PROCESS = "    def _in_process(self):\n        for strategy in self.strategies:\n            try:\n                _start_with_param_data(self.config, self.data, strategy, self.backtest_config)\n            except Exception as e:\n                e_callback(e)\n\n    def run(self):"
+
+ccases = {
+ "current": SRC,
+ # F-7, the seven variants of the review
+ "guard narrowed": sub(GUARD, "if isinstance(cells.iloc[0], list):"),
+ "guard if False and": sub(GUARD, GUARD.replace("if ", "if False and ", 1)),
+ "range(1)": sub(RANGE, "for position in range(1):"),
+ "lru_cache on _own_frame": sub(OWN, "@functools.lru_cache(maxsize=None)\n" + OWN).replace("import copy\n", "import copy\nimport functools\n", 1),
+ "cache on _own_frame": sub(OWN, "@functools.cache\n" + OWN).replace("import copy\n", "import copy\nimport functools\n", 1),
+ "market._data after": sub(ASSIGN, ASSIGN + "        market._data = data.data[market.market_info]\n"),
+ "market rebound before add": sub(ADD, "        market = config.markets[0]\n" + ADD),
+ "seq branch pass": sub(SEQ, "            pass\n"),
+ # their neighbours
+ "guard or-ed away": sub(GUARD, GUARD.replace(".any():", ".any() and False:")),
+ "guard without dtype": sub(GUARD, "if cells.map(lambda cell: isinstance(cell, (list, dict, set))).any():"),
+ "guard only lists": sub(GUARD, GUARD.replace("(list, dict, set)", "(list,)")),
+ "guard all()": sub(GUARD, GUARD.replace(".any()", ".all()")),
+ "range minus one": sub(RANGE, "for position in range(frame.shape[1] - 1):"),
+ "range(shape[0])": sub(RANGE, "for position in range(frame.shape[0]):"),
+ "continue first": sub(RANGE, RANGE + "\n        continue"),
+ "break after": sub("            frame.isetitem(position, cells.map(copy.deepcopy))\n", "            frame.isetitem(position, cells.map(copy.deepcopy))\n        break\n"),
+ "isetitem(0, …)": sub("frame.isetitem(position, ", "frame.isetitem(0, "),
+ "cells of column 0": sub("cells = frame.iloc[:, position]", "cells = frame.iloc[:, 0]"),
+ "map(copy.copy)": sub("cells.map(copy.deepcopy)", "cells.map(copy.copy)"),
+ "frame rebound": sub("    return frame\n", "    frame = shared\n    return frame\n"),
+ "early return shared": sub("    frame = shared.copy(deep=False)\n", "    if len(shared) > 0:\n        return shared\n    frame = shared.copy(deep=False)\n"),
+ "copy shadowed": sub("def e_callback(e):", "class copy:\n    deepcopy = staticmethod(lambda x: x)\n\n\ndef e_callback(e):"),
+ "_own_frame redefined": sub("def e_callback(e):", "def _own_frame(shared):\n    return shared\n\n\ndef e_callback(e):"),
+ "_own_frame reassigned": sub("def e_callback(e):", "_own_frame = lambda shared: shared\n\n\ndef e_callback(e):"),
+ "decorated _start": sub("def _start(config", "@functools.cache\ndef _start(config"),
+ "decorated param wrapper": sub("def _start_with_param_data(", "@functools.cache\ndef _start_with_param_data("),
+ "decorated global wrapper": sub("def _start_with_global_data(", "@functools.cache\ndef _start_with_global_data("),
+ "wrapper passes other data": sub("    return _start(config, data, strategy, bk_config)\n", "    return _start(config, global_data, strategy, bk_config)\n"),
+ "market.data augmented": sub(ASSIGN, ASSIGN + "        market.data += data.data[market.market_info]\n"),
+ "setattr data": sub(ASSIGN, ASSIGN + "        setattr(market, 'data', data.data[market.market_info])\n"),
+ "setattr _data by alias": sub(ASSIGN, ASSIGN + "        frames = data\n        setattr(market, '_data', frames.data[market.market_info])\n"),
+ "alias ._data": sub(ASSIGN, ASSIGN + "        m2 = market\n        m2._data = data.data[m2.market_info]\n"),
+ "second target": sub(ASSIGN, ASSIGN.replace("market.data = ", "market.data = market._data = ")),
+ "assign under if False": sub(ASSIGN, "        if False:\n    " + ASSIGN),
+ "shared frame to a setter": sub(ASSIGN, ASSIGN + "        market.set_data(data.data[market.market_info])\n"),
+ "loop variable rebound (walrus)": sub(ADD, "        (market := config.markets[0])\n" + ADD),
+ "loop variable rebound (inner for)": sub(ADD, "        for market in config.markets:\n            break\n" + ADD),
+ "loop variable rebound (tuple)": sub(ADD, "        market, _ = config.markets[0], None\n" + ADD),
+ "rebound after add": sub(ADD, ADD + "        market = config.markets[0]\n"),
+ "mode 2 then per-market deepcopy after add": sub(ADD, ADD + "        market = copy.deepcopy(market)\n"),
+ "second add_market": sub(ADD, ADD + "        actuator.broker.add_market(config.markets[0])\n"),
+ "seq branch without the call": sub(LOOP, "                pass\n"),
+ "seq branch under if False": sub(LOOP, "                if False:\n    " + LOOP.replace("\n        ", "\n            ")),
+ "seq branch other data": sub(LOOP, LOOP.replace("self.data", "None")),
+ "seq branch first strategy only": sub(LOOP, LOOP.replace("strategy, self", "self.strategies[0], self")),
+ "seq branch global data": sub(LOOP, LOOP.replace("_start_with_param_data(self.config, self.data, ", "_start_with_global_data(self.config, ")),
+ "seq branch loop over a slice": sub("            for strategy in self.strategies:\n                # A backtest", "            for strategy in self.strategies[:1]:\n                # A backtest"),
+ "seq test widened": sub("elif len(self.strategies) == 1 or self.threads == 1:", "elif len(self.strategies) >= 1 or self.threads == 1:"),
+ "seq test on another length": sub("elif len(self.strategies) == 1 or self.threads == 1:", "elif len(self.strategies) - 1 == 1 or self.threads == 1:"),
+ "seq test and-ed": sub("elif len(self.strategies) == 1 or self.threads == 1:", "elif len(self.strategies) == 1 and self.threads == 1:"),
+ "loop moved out of the branch": sub(SEQ, "            pass\n").replace("        start_time = time.time()", "        self._in_process()\n        start_time = time.time()").replace("    def run(self):", IN_PROCESS),
+ # shapes that copy as much as today, or less in a way the flags name: answered, not refused
+ "renamed variables": sub("position", "k").replace("cells", "col").replace("lambda cell:", "lambda x:").replace("isinstance(cell,", "isinstance(x,").replace("frame", "own"),
+ "from copy import deepcopy": sub("cells.map(copy.deepcopy)", "cells.map(deepcopy)").replace("import copy\n", "import copy\nfrom copy import deepcopy\n", 1),
+ "copy(deep=True)": sub("shared.copy(deep=False)", "shared.copy(deep=True)"),
+ "no cell copy": sub("    " + RANGE + "\n        cells = frame.iloc[:, position]\n        " + GUARD + "\n            frame.isetitem(position, cells.map(copy.deepcopy))\n", ""),
+ "inline copy": sub(ASSIGN, ASSIGN.replace("_own_frame(data.data[market.market_info])", "data.data[market.market_info].copy(deep=False)")),
+ "shared frame itself": sub(ASSIGN, ASSIGN.replace("_own_frame(data.data[market.market_info])", "data.data[market.market_info]")),
+ "helper returns its argument": sub("    return frame\n", "    return shared\n"),
+ "markets themselves": sub(MLOOP, "    for market in config.markets:\n"),
+ "deepcopy per market": sub(MLOOP, "    for market in config.markets:\n        market = copy.deepcopy(market)\n"),
+ "deepcopy kept under a name": sub(MLOOP, "    markets = copy.deepcopy(config.markets)\n    for market in markets:\n"),
+ "deepcopy name rebound": sub(MLOOP, "    markets = copy.deepcopy(config.markets)\n    markets = config.markets\n    for market in markets:\n"),
+ "seq branch in a method": sub(SEQ, "            self._in_process()\n").replace("    def run(self):", IN_PROCESS),
+ "seq call in a method": sub(LOOP, "                self._run_one(strategy)\n").replace("    def run(self):", "    def _run_one(self, strategy):\n        try:\n            return _start_with_param_data(self.config, self.data, strategy, self.backtest_config)\n        except Exception as e:\n            e_callback(e)\n\n    def run(self):"),
+ "seq call in a module function": sub(LOOP, "                _guarded(self.config, self.data, strategy, self.backtest_config)\n").replace("def e_callback(e):", "def _guarded(c, d, s, b):\n    try:\n        _start_with_param_data(c, d, s, b)\n    except Exception as e:\n        e_callback(e)\n\n\ndef e_callback(e):"),
+ "seq module function swaps arguments": sub(LOOP, "                _guarded(self.config, self.data, strategy, self.backtest_config)\n").replace("def e_callback(e):", "def _guarded(c, d, s, b):\n    try:\n        _start_with_param_data(c, s, d, b)\n    except Exception as e:\n        e_callback(e)\n\n\ndef e_callback(e):"),
+ "seq direct _start": sub(LOOP, LOOP.replace("_start_with_param_data(", "_start(")),
+}
+CEXPECT = {
+ "current": "2TTT",
+ "guard narrowed": "ShapeError", "guard if False and": "ShapeError", "range(1)": "ShapeError", "lru_cache on _own_frame": "ShapeError",
+ "cache on _own_frame": "ShapeError", "market._data after": "ShapeError", "market rebound before add": "ShapeError", "seq branch pass": "2FTT",
+ "guard or-ed away": "ShapeError", "guard without dtype": "ShapeError", "guard only lists": "ShapeError", "guard all()": "ShapeError",
+ "range minus one": "ShapeError", "range(shape[0])": "ShapeError", "continue first": "ShapeError", "break after": "ShapeError",
+ "isetitem(0, …)": "ShapeError", "cells of column 0": "ShapeError", "map(copy.copy)": "ShapeError", "frame rebound": "ShapeError",
+ "early return shared": "ShapeError", "copy shadowed": "ShapeError", "_own_frame redefined": "ShapeError", "_own_frame reassigned": "ShapeError",
+ "decorated _start": "ShapeError", "decorated param wrapper": "ShapeError", "decorated global wrapper": "ShapeError",
+ "wrapper passes other data": "ShapeError", "market.data augmented": "ShapeError", "setattr data": "ShapeError",
+ "setattr _data by alias": "ShapeError", "alias ._data": "ShapeError", "second target": "ShapeError", "assign under if False": "ShapeError",
+ "shared frame to a setter": "ShapeError", "loop variable rebound (walrus)": "ShapeError", "loop variable rebound (inner for)": "ShapeError",
+ "loop variable rebound (tuple)": "ShapeError", "rebound after add": "ShapeError", "mode 2 then per-market deepcopy after add": "ShapeError",
+ "second add_market": "ShapeError", "seq branch without the call": "2FTT", "seq branch under if False": "2FTT", "seq branch other data": "2FTT",
+ "seq branch first strategy only": "2FTT", "seq branch global data": "2FTT", "seq branch loop over a slice": "2FTT", "seq test widened": "2FTT",
+ "seq test on another length": "2FTT", "seq test and-ed": "2FTT", "loop moved out of the branch": "2FTT",
+ "renamed variables": "2TTT", "from copy import deepcopy": "2TTT", "copy(deep=True)": "2TTT", "no cell copy": "2TTF", "inline copy": "2TTF",
+ "shared frame itself": "2TFF", "helper returns its argument": "2TFF", "markets themselves": "0TTT", "deepcopy per market": "1TTT",
+ "deepcopy kept under a name": "2TTT", "deepcopy name rebound": "ShapeError", "seq branch in a method": "2TTT", "seq call in a method": "2TTT",
+ "seq call in a module function": "2TTT", "seq module function swaps arguments": "2FTT", "seq direct _start": "2TTT",
+}
+F7 = ("guard narrowed", "guard if False and", "range(1)", "lru_cache on _own_frame", "cache on _own_frame", "market._data after",
+      "market rebound before add", "seq branch pass")
+cbad = 0
+for k, v in ccases.items():
+    ast.parse(v)
+    assert k == "current" or v != SRC, k
+    got = cflags(v)
+    ok = got == CEXPECT[k] and not (k in F7 and got == "2TTT")
+    cbad += not ok
+    print(f"{'ok ' if ok else 'BAD'} {k:42s} {got}" + ("" if ok else f"   expected {CEXPECT[k]}"))
+# the in-process branch that runs nothing is refused by the failure flags as well (no in-process loop to judge)
+got = flags(ccases["seq branch pass"])
+ok = got == "ShapeError"
+cbad += not ok
+print(f"{'ok ' if ok else 'BAD'} {'seq branch pass (failure flags)':42s} {got}" + ("" if ok else "   expected ShapeError"))
+# process-wide state: the Snapshot class must hold no object shared by its instances (variants of broker/_typing.py)
+TSRC = open(os.path.join(REPO, "demeter/broker/_typing.py")).read()
+FIELD = "    market_status: MarketDict[Union[pd.Series, pd.DataFrame]] = field(default_factory=MarketDict)"
+if TSRC.count(FIELD) != 1:
+    print("consts_manager_selftest: the text of broker/_typing.py is not the one these variants are edits of (not a failure of the extractor)")
+    sys.exit(2)
+def snap(src):
+    try:
+        return "T" if cm.snapshot_fields_private(ast.parse(src), ShapeError) else "F"
+    except ShapeError:
+        return "ShapeError"
+ANN = "    market_status: MarketDict[Union[pd.Series, pd.DataFrame]]"
+scases = {
+ "current": (TSRC, "T"),
+ "class-level MarketDict()": (TSRC.replace(FIELD, ANN + " = MarketDict()"), "F"),
+ "class-level dict display": (TSRC.replace(FIELD, ANN + " = {}"), "F"),
+ "field(default=MarketDict())": (TSRC.replace(FIELD, ANN + " = field(default=MarketDict())"), "F"),
+ "default taken from a module-level object": (TSRC.replace(FIELD, ANN + " = _SHARED_STATUS"), "F"),
+ "factory returning a module-level object is not judged here, a cache attribute is": (TSRC.replace(FIELD, FIELD + "\n    _last = MarketDict()"), "ShapeError"),
+ "extra annotated class-level cache": (TSRC.replace(FIELD, FIELD + "\n    last_status: dict = dict()"), "F"),
+ "no default": (TSRC.replace(FIELD, ANN), "T"),
+ "not a dataclass any more": (TSRC.replace("@dataclass\nclass Snapshot:", "class Snapshot:"), "ShapeError"),
+}
+sbad = 0
+for k, (v, want) in scases.items():
+    ast.parse(v)
+    assert k == "current" or v != TSRC, k
+    got = snap(v)
+    sbad += got != want
+    print(f"{'ok ' if got == want else 'BAD'} snapshot: {k:60s} {got}" + ("" if got == want else f"   expected {want}"))
+n, nbad = len(cases) + len(ccases) + 1 + len(scases), bad + cbad + sbad
+print(f"consts_manager_selftest: {n - nbad}/{n} as expected ({len(cases) - bad}/{len(cases)} failure-handling variants, {len(ccases) + 1 - cbad}/{len(ccases) + 1} copy-flag variants, "
+      f"{len(scases) - sbad}/{len(scases)} snapshot-field variants)")
+sys.exit(1 if nbad else 0)
